@@ -43,6 +43,7 @@ structure SyncSt where
   mode : Mode := .participant
   backend : Backend := .trimmed
   rc : Bool := false
+  rg : Bool := false
   fr : Bool := false
   labels : Labels := {}
   node : Node := ⟨Stack.init true seedSym, [], []⟩
@@ -67,7 +68,7 @@ def viewLastErr (s : SyncSt) (base : BoltState) : Bool :=
   | some (k, _) => s.trimPrev && decide (k > 0) && (lookup (k - 1) base).isNone
 
 def SyncSt.cfg (s : SyncSt) : Cfg :=
-  { verify := labelVerify s.chained s.labels, lastErr := viewLastErr s, mode := s.mode, roundCheck := s.rc, followRetry := s.fr }
+  { verify := labelVerify s.chained s.labels, lastErr := viewLastErr s, mode := s.mode, roundCheck := s.rc, rangeCheck := s.rg, followRetry := s.fr }
 
 /-! ### peer scripts -/
 
@@ -129,10 +130,11 @@ def joinOr (sep : String) (l : List String) : String := if l.isEmpty then "-" el
 /-- the part of the ghost history added since `old` -/
 def newPart {α : Type} (old new : List α) : List α := (new.take (new.length - old.length)).reverse
 
-def report (old : Node) (new : Node) (res : String) (dead : Bool) : String :=
+def report (s : SyncSt) (old : Node) (new : Node) (res : String) (dead : Bool) : String :=
   let ws := (newPart old.writes new.writes).map showWrite
   let cs := (newPart old.calls new.calls).map fun c => s!"{c.1}@{c.2}"
-  s!"{res} dead={if dead then 1 else 0} calls={joinOr "," cs} w={joinOr "," ws} head={new.head}"
+  let hd := if viewLastErr s new.st.base then "err" else toString new.head
+  s!"{res} dead={if dead then 1 else 0} calls={joinOr "," cs} w={joinOr "," ws} head={hd}"
 
 def flag (s : String) : Bool := s == "1"
 
@@ -146,28 +148,28 @@ def parseRounds (tok : String) : List Nat := if tok = "-" then [] else (tok.spli
 
 def syncStep (s : SyncSt) (f : List String) : SyncSt × String :=
   match f with
-  | "init" :: c :: m :: be :: _n :: head :: rc :: fr :: labels =>
+  | "init" :: c :: m :: be :: _n :: head :: rc :: rg :: fr :: labels =>
     let chained := flag c
     let base0 : BoltState := Bolt.put [] (genesis seedSym)
     let base := (List.range' 1 (head.toNat?.getD 0)).foldl
       (fun acc r => Bolt.put acc ⟨r, sigT r, truePrev chained r⟩) base0
     ({ chained, mode := if m = "follow" then .follow else .participant,
-       backend := if be = "bolt" then .bolt else .trimmed, rc := flag rc, fr := flag fr,
+       backend := if be = "bolt" then .bolt else .trimmed, rc := flag rc, rg := flag rg, fr := flag fr,
        labels := parseLabels labels, node := ⟨Stack.build chained base, [], []⟩ }, "ok")
   | "sync" :: upTo :: perm :: peers =>
     let r := sync s.cfg "self" 0 (upTo.toNat?.getD 0) false s.node (peersAt s.chained 0 perm peers)
     let res := match r.2.1 with | .ok => "ok" | .failedAll => "failed-all" | .cancelled => "cancelled"
-    ({ s with node := r.1 }, report s.node r.1 res r.2.2)
+    ({ s with node := r.1 }, report s s.node r.1 res r.2.2)
   | "resync" :: from_ :: to :: perm1 :: perm2 :: peers =>
     let r := reSync s.cfg "self" (from_.toNat?.getD 0) (to.toNat?.getD 0) false s.node
       (peersAt s.chained 0 perm1 peers) (peersAt s.chained 1 perm2 peers)
     let res := match r.2.1 with | .ok => "ok" | .failedAll => "failed-all" | .cancelled => "cancelled" | .invalid => "invalid"
-    ({ s with node := r.1 }, report s.node r.1 res r.2.2)
+    ({ s with node := r.1 }, report s s.node r.1 res r.2.2)
   | "correct" :: fb :: perm :: peers =>
     let env : Nat → List Peer × List Peer := fun _ => (peersAt s.chained 0 perm peers, peersAt s.chained 1 perm peers)
     let r := correctPast s.cfg "self" env s.node (parseRounds fb)
     let res := match r.2.1 with | .ok => "ok" | .errors k => s!"errors:{k}" | .cancelled => "cancelled"
-    ({ s with node := r.1 }, report s.node r.1 res r.2.2)
+    ({ s with node := r.1 }, report s s.node r.1 res r.2.2)
   | ["check", upTo] =>
     if viewLastErr s s.node.st.base then (s, "err") else
     let l := checkPast s.cfg.verify (viewGet s s.node.st.base) s.node.head (upTo.toNat?.getD 0)
@@ -179,7 +181,7 @@ def syncStep (s : SyncSt) (f : List String) : SyncSt × String :=
       | [] => []
     let r := followLoop s.cfg "self" (upTo.toNat?.getD 0) s.node atts
     let res := match r.2 with | .done => "done" | .following => "following" | .cancelled => "cancelled" | .stuck => "stuck"
-    ({ s with node := r.1 }, report s.node r.1 res false)
+    ({ s with node := r.1 }, report s s.node r.1 res false)
   | ["raw", r, sg, pv] =>
     match parseBeacon r sg pv with
     | some b => ({ s with node := { s.node with st := s.node.st.rawPut b } }, "ok")
